@@ -130,6 +130,10 @@ class Xunitary(Compiler):
         if A != []:
             raise CircuitError("There can be no operations before the S2gates.")
 
+        if any(not isinstance(cmd.op, ops.S2gate) for cmd in B):
+            # an operation that cannot be moved behind the last S2gate
+            raise CircuitError("There can be no operations between the S2gates.")
+
         regrefs = set()
 
         if B:
